@@ -299,6 +299,7 @@ static void c02_body(const struct c02cfg *c, int sched_bound)
   vk_set_hang_hook(c02_hang);
   /* comparable with a free run: small payloads (one kernel write each) and loops whose results do not depend on how fast the child is */
   S->free_run_ok = c->size <= 7 && c->insize <= 7 && c->pv != PV_NONBLOCK && c->pv != PV_NB_READ_FIRST && c->pv != PV_SEQ_EINTR;
+  vk_autonomous_gap_ms = 60; /* no timeouts in this harness: the gap only has to dwarf the parent's own call sequence */
   memset(got, 0, sizeof got);
   memset(eof_seen, 0, sizeof eof_seen);
   memset(parent_closed, 0, sizeof parent_closed);
